@@ -18,7 +18,7 @@ RULE = ("Dense arrays of order 1-6 (<=4096 entries, modes 1-8 with singleton mod
         "rank <= rmax, <= unfolding dimensions, <= constructed unfolding rank (eps >= 1e3 u), and - when no rmax entry "
         "binds - ||dense(cores)-A|| <= eps ||A|| (1+1e-9) + 64 u sqrt(size) ||A||; dtype preserved. Non-trivial: some bond "
         "actually truncated (rank < both unfolding dimensions). Distinct = structural signature.")
-BUDGET = {"quick": 6000, "thorough": 150000}
+BUDGET = {"quick": 6000, "thorough": 1000000}
 FLOORS = {"quick": {"family:a": 800, "family:b": 800, "family:c": 300, "family:d": 200, "exact_tie_last_sv": 40,
                     "all_bonds_truncated": 100, "rmax_binding": 200, "operator": 500, "source:numpy": 1000,
                     "singleton_mode": 800}}
